@@ -172,6 +172,7 @@ def run(ctx):
     machine.run_batch(ctx, ctx.n(60, 800), allow={'force', 'restart', 'fail'}, label='force', oracle=oracle, stamp=True)
     name_mode_probe(ctx)
     unwritable_forced_probe(ctx)
+    multichain_marks_probe(ctx)
 
 
 def unwritable_forced_probe(ctx):
@@ -213,6 +214,39 @@ def unwritable_forced_probe(ctx):
         sv = stored.value if stored.has_data else None
         if outcome == 'returned' and sv != got:
             ctx.fail('a forced task was computed again but its stored result is still the old one (no error)', case, {'returned': got, 'stored': sv})
+
+
+def multichain_marks_probe(ctx):
+    """forcing recomputes exactly what was asked — through a MultiChain too: a task that was merely MARKED by an earlier force (no
+    recompute, not requested since) is not executed by a later `force(other, recompute=True)`; it stays marked"""
+    from taskchain import Task, Config, MultiChain
+    root = ctx.tmpdir() / 'mc-marks'
+    ran = []
+
+    def mk(nm):
+        class T(Task):
+            class Meta:
+                name = nm
+
+            def run(self) -> int:
+                ran.append(nm)
+                return len(ran)
+        return T
+    A, B = mk('alpha'), mk('beta')
+    for k in range(ctx.n(2, 6)):
+        cfgs = [Config(root / f'd{k}', name=f'c{j}', data={'tasks': [A, B], 'tag': j}) for j in range(2)]
+        mc = MultiChain(cfgs, parameter_mode=bool(k % 2))
+        for ch in mc.chains.values():
+            _ = ch['alpha'].value, ch['beta'].value
+        ran.clear()
+        mc.force('alpha')
+        mc.force('beta', recompute=True)
+        case = {'probe': 'MultiChain: an earlier mark and a later recompute of another task', 'parameter_mode': bool(k % 2)}
+        ctx.case(case); ctx.count('multichain-marks-probe')
+        if 'alpha' in ran or 'beta' not in ran:
+            ctx.fail('force(recompute=True) ran a task that was not asked for (or did not run the one that was)', case, {'ran': list(ran)})
+        if not all(ch['alpha'].is_forced for ch in mc.chains.values()):
+            ctx.fail('a task marked by force lost its mark without having been recomputed', case, {})
 
 
 def search(ctx, divergences):
